@@ -291,7 +291,9 @@ type verifTwo struct {
 	Bb string
 }
 
-// VerifC08Encoder: k structs written one after another through one Encoder read back as k paragraphs.
+// VerifC08Encoder: k structs written one after another through one Encoder read back as the same paragraphs:
+// every struct that has a field to write is one paragraph, in order, with its own fields (a struct with nothing
+// to write contributes nothing, and must not glue its neighbours together).
 func VerifC08Encoder(k, f int, a0, b0, a1, b1, a2, b2 string) int {
 	vals := []verifTwo{{a0, b0}, {a1, b1}, {a2, b2}}
 	var buf bytes.Buffer
@@ -299,23 +301,27 @@ func VerifC08Encoder(k, f int, a0, b0, a1, b1, a2, b2 string) int {
 	if err != nil {
 		return 1
 	}
+	want := []verifTwo{}
 	for i := 0; i < k; i++ {
 		if err := enc.Encode(&vals[i]); err != nil {
 			return 2
+		}
+		if vals[i].Aa != "" || vals[i].Bb != "" {
+			want = append(want, vals[i])
 		}
 	}
 	var back []verifTwo
 	if err := Unmarshal(&back, strings.NewReader(buf.String())); err != nil {
 		return 3
 	}
-	if len(back) != k {
+	if len(back) != len(want) {
 		return 4
 	}
-	for i := 0; i < k; i++ {
-		if back[i].Aa != vals[i].Aa {
+	for i := range want {
+		if back[i].Aa != want[i].Aa {
 			return 5
 		}
-		if f > 1 && back[i].Bb != vals[i].Bb {
+		if back[i].Bb != want[i].Bb {
 			return 6
 		}
 	}
